@@ -368,6 +368,9 @@ where
 
                         tokio::time::sleep(delay).await;
                         attempt += 1;
+
+                        // The previous call consumed readiness; drive it again before retrying
+                        std::future::poll_fn(|cx| service.poll_ready(cx)).await?;
                     }
                 }
             }
